@@ -227,8 +227,8 @@ def judge(text, expected, acc, level, case=None):
         try:
             lib = Splitter(text).split() if route == "split" else bibtexparser.parse_string(text, parse_stack=[])
         except Exception as e:
-            acc.raised[type(e).__name__] += 1
-            continue
+            acc.exception(e, case, route, size=len(text))
+            return False
         obs = dialect.observed(lib)
         if route == "split":
             acc.step(("text", text), "split", tuple(obs))
